@@ -7,6 +7,8 @@ CONSTANTS
   Dev = {}
   Ops <- MCOpsFull
   InitConds <- MCInitAll
+  InitNold <- MCNold0
+  InitRanks <- MCRankId
 CHECK_DEADLOCK FALSE
 INVARIANTS CompleteIsHashed OnlyVerified BusyHasBuf Accounting BufferIffData DelReleasesAll
 POSTCONDITION TraceAccepted
